@@ -26,7 +26,7 @@ Lemma reachable_run s ls s' : reachable s -> run s ls = Some s' -> reachable s'.
 Proof.
   revert s; induction ls as [|l ls IH]; intros s Hr H; cbn in H.
   - inversion H; subst; assumption.
-  - destruct (step s l) eqn:E; [|discriminate]. eapply IH; eauto using reachable_step.
+  - destruct (step s l) eqn:E; [|discriminate]. apply (IH s0); [eapply reachable_step; eauto|assumption].
 Qed.
 
 Lemma invariant_induction (I : state -> Prop) :
@@ -39,7 +39,7 @@ Proof.
   - cbn in H. inversion H; subst; assumption.
   - rewrite run_app in H. destruct (run init ls) as [s1|] eqn:E; [|discriminate].
     cbn in H. destruct (step s1 l) eqn:E2; [|discriminate]. inversion H; subst.
-    eapply Hstep; eauto. now exists ls.
+    apply (Hstep s1 l s); [now exists ls|now apply IH|assumption].
 Qed.
 
 (** * Counting *)
@@ -138,7 +138,8 @@ Record inv (s : state) : Prop := {
 Lemma inv_init : inv init.
 Proof.
   constructor; cbn; try (intros; discriminate); try (intros; contradiction); try constructor.
-  - intros i; split; [intros []|intros H; now apply H].
+  - intros [].
+  - intros H; now apply H.
 Qed.
 
 (** ** frame lemmas *)
@@ -169,4 +170,976 @@ Lemma holds_at_creator_pos s c : inv s -> holds_at s c c = true -> (1 <= holders
 Proof.
   intros I H. unfold holders. eapply count_pos; eauto.
   apply (i_thr_dom s I). unfold holds_at in H. destruct (thr s c); congruence.
+Qed.
+
+Lemma obj_ok'_failed reg hn cl ch reg' hn' cl' ch' c o :
+  c_ds o = DDone -> c_err o <> None -> reg' = reg ->
+  obj_ok' reg hn cl ch c o -> obj_ok' reg' hn' cl' ch' c o.
+Proof.
+  unfold obj_ok'. intros -> He ->. destruct (c_err o); [auto|congruence].
+Qed.
+
+Ltac upd_cases x k := unfold upd; destruct (Nat.eqb_spec x k).
+
+(** ** component updates that keep the invariant *)
+
+(** an object changes, keeping its address, reference count and registration *)
+Lemma inv_set_obj s c o o' :
+  inv s -> objs s c = Some o ->
+  c_addr o' = c_addr o ->
+  obj_ok' (registered s c o) (holders s c) (closes s c) (holds_at s c c) c o' ->
+  (c_ready o = true -> c_ready o' = true /\ outcome o' = outcome o) ->
+  (c_cc o = Some c -> c_cc o' = Some c) ->
+  c_known o' = c_known o -> (c_ds o <> DStart -> c_ds o' <> DStart) ->
+  inv (set_obj s c o').
+Proof.
+  intros I Ho Ha Hok Hr Hcc Hk Hds.
+  constructor; cbn.
+  - apply I.
+  - apply I.
+  - apply I.
+  - intros c0 o0. upd_cases c0 c; [subst; intros _; eapply i_obj_dom; eauto|apply I].
+  - intros a c0 H. destruct (i_conns s I a c0 H) as (o0 & Ho0 & Ha0).
+    upd_cases c0 c; [subst|eauto]. exists o'. split; [reflexivity|]. congruence.
+  - intros c0 o0. upd_cases c0 c.
+    + subst. intros E; inversion E; subst o0; clear E.
+      unfold obj_ok. replace (registered (set_obj s c o') c o') with (registered s c o); [exact Hok|].
+      unfold registered. cbn. now rewrite Ha.
+    + intros E. exact (i_obj s I c0 o0 E).
+  - intros i t Ht. pose proof (i_thread s I i t Ht) as Hto. unfold thread_ok in *.
+    destruct (t_obj t) as [c0|]; [|exact Hto].
+    destruct Hto as (o0 & Ho0 & Ha0 & Hp). cbn. upd_cases c0 c; [subst c0|eauto].
+    assert (o0 = o) by congruence; subst o0.
+    exists o'. split; [reflexivity|]. split; [congruence|].
+    destruct (t_pc t); auto. destruct Hp as (Hrd & Hout & Hon).
+    destruct (Hr Hrd) as [Hr1 Hr2]. repeat split; auto. congruence.
+  - intros h Hh. destruct (i_close s I h Hh) as (o0 & Ho0 & Hc0).
+    upd_cases h c; [subst h|eauto]. assert (o0 = o) by congruence; subst o0. eauto.
+  - intros c0 a Hd. destruct (i_dial s I c0 a Hd) as (o0 & Ho0 & Ha0 & Hk0 & Hd0).
+    upd_cases c0 c; [subst c0|eauto]. assert (o0 = o) by congruence; subst o0.
+    exists o'. repeat split; auto; congruence.
+  - apply I.
+Qed.
+
+(** a thread moves on, staying with its object *)
+Lemma inv_set_thread s i t t' :
+  inv s -> thr s i = Some t -> thread_ok s t' ->
+  (forall c, holds c t' = holds c t \/ exists o, objs s c = Some o /\ c_ds o = DDone /\ c_err o <> None) ->
+  inv (set_thread s i t').
+Proof.
+  intros I Ht Hok Hh.
+  assert (Hin : In i (tids s)) by (apply (i_thr_dom s I); congruence).
+  constructor; cbn.
+  - apply I.
+  - apply I.
+  - intros j. rewrite (i_thr_dom s I j). upd_cases j i; [subst|tauto]. split; congruence.
+  - apply I.
+  - apply I.
+  - intros c o Ho. pose proof (i_obj s I c o Ho) as Hob. unfold obj_ok in *.
+    change (registered (set_thread s i t') c o) with (registered s c o).
+    change (closes (set_thread s i t') c) with (closes s c).
+    destruct (Hh c) as [Heq|(o1 & Ho1 & Hd1 & He1)].
+    + assert (Hat : forall j, holds_at (set_thread s i t') c j = holds_at s c j).
+      { intros j. unfold holds_at. cbn. upd_cases j i; [subst|reflexivity]. now rewrite Ht. }
+      rewrite Hat. rewrite (holders_ext s (set_thread s i t') c); auto.
+    + assert (o1 = o) by congruence; subst o1.
+      eapply obj_ok'_failed; eauto.
+  - intros j tj. upd_cases j i; [subst; intros E; inversion E; subst; exact Hok|].
+    intros Hj. exact (i_thread s I j tj Hj).
+  - apply I.
+  - apply I.
+  - apply I.
+Qed.
+
+Lemma ready_done s c o : inv s -> objs s c = Some o -> c_ready o = true -> c_ds o = DDone.
+Proof.
+  intros I Ho Hr. pose proof (i_obj s I c o Ho) as H. unfold obj_ok, obj_ok' in H.
+  destruct (c_ds o); try reflexivity; destruct H as (_ & H & _); congruence.
+Qed.
+
+Lemma holds_other c c' t : t_obj t = Some c -> c' <> c -> holds c' t = false.
+Proof.
+  intros Ho Hn. unfold holds. rewrite Ho. destruct (Nat.eqb_spec c c'); [congruence|reflexivity].
+Qed.
+
+(** ** the steps, one by one *)
+
+Lemma inv_cancel s i : inv s -> inv (set_cancelled s (upd (cancelled s) i true)).
+Proof. intros I. destruct I. constructor; assumption. Qed.
+
+Lemma inv_pass s i s' : inv s -> step s (LPass i) = Some s' -> inv s'.
+Proof.
+  intros I H. unfold step in H. rewrite (i_np s I) in H.
+  destruct (thr s i) as [t|] eqn:Et; [|discriminate].
+  destruct (t_pc t) eqn:Ep; try discriminate. inversion H; subst s'; clear H.
+  pose proof (i_thread s I i t Et) as Hto.
+  eapply inv_set_thread; eauto.
+  - unfold thread_ok in *. cbn. destruct (t_obj t); [|rewrite Ep in Hto; destruct Hto; discriminate].
+    destruct Hto as (o & Ho & Ha & Hp). exists o. rewrite Ep in Hp. auto.
+  - intros c. left. unfold holds. cbn. now rewrite Ep.
+Qed.
+
+Lemma inv_wait s i s' : inv s -> step s (LWait i) = Some s' -> inv s'.
+Proof.
+  intros I H. unfold step in H. rewrite (i_np s I) in H.
+  destruct (thr s i) as [t|] eqn:Et; [|discriminate].
+  destruct (t_pc t) eqn:Ep; try discriminate.
+  destruct (t_obj t) as [c|] eqn:Eo; [|discriminate].
+  destruct (objs s c) as [o|] eqn:Ec; [|discriminate].
+  destruct (c_ready o) eqn:Er; [|discriminate].
+  pose proof (i_thread s I i t Et) as Hto. unfold thread_ok in Hto. rewrite Eo, Ep in Hto.
+  destruct Hto as (o1 & Ho1 & Ha1 & Hon). assert (o1 = o) by congruence; subst o1.
+  pose proof (ready_done s c o I Ec Er) as Hdd.
+  destruct (c_err o) as [e|] eqn:Ee; inversion H; subst s'; clear H.
+  - eapply inv_set_thread; eauto.
+    + unfold thread_ok. cbn. rewrite Eo. exists o. repeat split; auto.
+      * unfold outcome. now rewrite Ee.
+      * congruence.
+    + intros c0. destruct (Nat.eq_dec c0 c) as [->|Hn].
+      * right. exists o. repeat split; auto. congruence.
+      * left. rewrite !(holds_other c c0); auto.
+  - eapply inv_set_thread; eauto.
+    + unfold thread_ok. cbn. rewrite Eo. exists o. repeat split; auto.
+      * unfold outcome. now rewrite Ee.
+      * congruence.
+    + intros c0. left. unfold holds. cbn. rewrite Eo, Ep, Hon. reflexivity.
+Qed.
+
+Lemma inv_spawn s c s' : inv s -> step s (LSpawn c) = Some s' -> inv s'.
+Proof.
+  intros I H. unfold step in H. rewrite (i_np s I) in H.
+  destruct (objs s c) as [o|] eqn:Ec; [|discriminate].
+  destruct (c_ds o) eqn:Ed; try discriminate.
+  pose proof (i_obj s I c o Ec) as Hob. unfold obj_ok, obj_ok' in Hob. rewrite Ed in Hob.
+  destruct Hob as (Hreg & Hrd & Herr & Hcc & Href & Hch).
+  destruct (c_known o) eqn:Ek; inversion H; subst s'; clear H.
+  - assert (I1 : inv (set_obj s c (with_ds o DInDial))).
+    { eapply inv_set_obj; eauto; cbn; try congruence.
+      unfold obj_ok'. cbn. repeat split; auto. }
+    assert (Hni : ~ In c (map fst (dial_log s))).
+    { intros Hin. apply in_map_iff in Hin. destruct Hin as ([c1 a1] & E1 & Hin). cbn in E1. subst c1.
+      destruct (i_dial s I c a1 Hin) as (o1 & Ho1 & _ & _ & Hd1). congruence. }
+    destruct I1. constructor; try assumption.
+    + cbn. intros c0 a [E|Hin].
+      * inversion E; subst. exists (with_ds o DInDial). rewrite upd_same. cbn. repeat split; auto. discriminate.
+      * apply (i_dial0 c0 a Hin).
+    + cbn. constructor; assumption.
+  - eapply inv_set_obj; eauto; cbn; try congruence.
+    unfold obj_ok'. cbn. repeat split; auto.
+Qed.
+
+Lemma inv_dialret s c ok s' : inv s -> step s (LDialRet c ok) = Some s' -> inv s'.
+Proof.
+  intros I H. unfold step in H. rewrite (i_np s I) in H.
+  destruct (objs s c) as [o|] eqn:Ec; [|discriminate].
+  destruct (c_ds o) eqn:Ed; try discriminate.
+  pose proof (i_obj s I c o Ec) as Hob. unfold obj_ok, obj_ok' in Hob. rewrite Ed in Hob.
+  destruct Hob as (Hreg & Hrd & Herr & Hcc & Href & Hch).
+  destruct ok; inversion H; subst s'; clear H.
+  - eapply inv_set_obj; eauto; cbn; try congruence.
+    unfold obj_ok'. cbn. rewrite Herr. repeat split; auto. left. repeat split; auto.
+    + now apply holds_at_creator_pos.
+    + apply closes_zero; auto. intros o1 Ho1. congruence.
+  - eapply inv_set_obj; eauto; cbn; try congruence.
+    unfold obj_ok'. cbn. repeat split; auto.
+Qed.
+
+Lemma inv_dialctx s c s' : inv s -> step s (LDialCtx c) = Some s' -> inv s'.
+Proof.
+  intros I H. unfold step in H. rewrite (i_np s I) in H.
+  destruct (objs s c) as [o|] eqn:Ec; [|discriminate].
+  destruct (c_ds o) eqn:Ed; try discriminate.
+  pose proof (i_obj s I c o Ec) as Hob. unfold obj_ok, obj_ok' in Hob. rewrite Ed in Hob.
+  destruct Hob as (Hreg & Hrd & Herr & Hcc & Href & Hch).
+  destruct (cancelled s c); inversion H; subst s'; clear H.
+  eapply inv_set_obj; eauto; cbn; try congruence.
+  unfold obj_ok'. cbn. repeat split; auto.
+Qed.
+
+Lemma inv_failready s c s' : inv s -> step s (LFailReady c) = Some s' -> inv s'.
+Proof.
+  intros I H. unfold step in H. rewrite (i_np s I) in H.
+  destruct (objs s c) as [o|] eqn:Ec; [|discriminate].
+  destruct (c_ds o) eqn:Ed; try discriminate.
+  pose proof (i_obj s I c o Ec) as Hob. unfold obj_ok, obj_ok' in Hob. rewrite Ed in Hob.
+  destruct Hob as (Hreg & Hrd & Herr & Hcc).
+  inversion H; subst s'; clear H.
+  eapply inv_set_obj; eauto; cbn; try congruence.
+  unfold obj_ok'. cbn. destruct (c_err o); [auto|congruence].
+Qed.
+
+(** another object's registration is not affected when the entry of [a],
+    which points to [c], is deleted or when an empty entry is filled with [c] *)
+Lemma registered_other s (cn : nat -> option nat) a c v c0 o0 :
+  c0 <> c ->
+  (conns s a = Some c \/ conns s a = None) -> (v = None \/ v = Some c) ->
+  registered (set_conns s (upd (conns s) a v)) c0 o0 = registered s c0 o0.
+Proof.
+  intros Hn Hs Hv. unfold registered. cbn. upd_cases (c_addr o0) a; [|reflexivity].
+  rewrite e.
+  assert (E1 : match conns s a with Some c' => Nat.eqb c' c0 | None => false end = false).
+  { destruct Hs as [->| ->]; [|reflexivity]. destruct (Nat.eqb_spec c c0); congruence. }
+  rewrite E1. destruct Hv as [->| ->]; [reflexivity|]. destruct (Nat.eqb_spec c c0); congruence.
+Qed.
+
+Lemma inv_faillock s c s' : inv s -> step s (LFailLock c) = Some s' -> inv s'.
+Proof.
+  intros I H. unfold step in H. rewrite (i_np s I) in H.
+  destruct (objs s c) as [o|] eqn:Ec; [|discriminate].
+  destruct (c_ds o) eqn:Ed; try discriminate.
+  pose proof (i_obj s I c o Ec) as Hob. unfold obj_ok, obj_ok' in Hob. rewrite Ed in Hob.
+  destruct Hob as (Hreg & Hrd & Herr & Hcc & Href & Hch).
+  apply registered_iff in Hreg.
+  unfold remove in H. rewrite Hreg, Ec, Hcc in H. cbn in H. rewrite (i_np s I) in H.
+  inversion H; subst s'; clear H.
+  set (a := c_addr o) in *.
+  constructor; cbn.
+  - apply I.
+  - apply I.
+  - apply I.
+  - intros c0 o0. upd_cases c0 c; [subst; intros _; eapply i_obj_dom; eauto|apply I].
+  - intros a0 c0. upd_cases a0 a; [discriminate|]. intros H.
+    destruct (i_conns s I a0 c0 H) as (o0 & Ho0 & Ha0).
+    upd_cases c0 c; [|eauto]. subst c0. assert (o0 = o) by congruence; subst o0. exfalso. apply n. subst a. congruence.
+  - intros c0 o0. upd_cases c0 c.
+    + subst c0. intros E; inversion E; subst o0; clear E.
+      unfold obj_ok, obj_ok'. cbn. repeat split; auto; try discriminate.
+      unfold registered. cbn. subst a. now rewrite Nat.eqb_refl.
+    + intros E. pose proof (i_obj s I c0 o0 E) as Hob. unfold obj_ok in *.
+      match goal with |- obj_ok' ?r _ _ _ _ _ => replace r with (registered s c0 o0) end; [exact Hob|].
+      symmetry. apply (registered_other s (conns s) a c None c0 o0); auto.
+  - intros i t Ht. pose proof (i_thread s I i t Ht) as Hto. unfold thread_ok in *.
+    destruct (t_obj t) as [c0|]; [|exact Hto].
+    destruct Hto as (o0 & Ho0 & Ha0 & Hp). cbn. upd_cases c0 c; [subst c0|eauto].
+    assert (o0 = o) by congruence; subst o0.
+    eexists. split; [reflexivity|]. split; [exact Ha0|].
+    destruct (t_pc t); auto. destruct Hp; congruence.
+  - intros h Hh. destruct (i_close s I h Hh) as (o0 & Ho0 & Hc0).
+    upd_cases h c; [subst h|eauto]. assert (o0 = o) by congruence; subst o0. congruence.
+  - intros c0 a0 Hd. destruct (i_dial s I c0 a0 Hd) as (o0 & Ho0 & Ha0 & Hk0 & Hd0).
+    upd_cases c0 c; [subst c0|eauto]. assert (o0 = o) by congruence; subst o0.
+    eexists. split; [reflexivity|]. cbn. repeat split; auto. discriminate.
+  - apply I.
+Qed.
+
+Arguments holders : simpl never.
+Arguments holds_at : simpl never.
+Arguments closes : simpl never.
+Arguments registered : simpl never.
+
+Lemma inv_release s i s' : inv s -> step s (LRelease i) = Some s' -> inv s'.
+Proof.
+  intros I H. unfold step in H. rewrite (i_np s I) in H.
+  destruct (thr s i) as [t|] eqn:Et; [|discriminate].
+  destruct (t_pc t) as [| |r] eqn:Ep; try discriminate.
+  destruct r as [e|h]; [inversion H; subst; exact I|].
+  destruct (t_obj t) as [c|] eqn:Eo; [|discriminate].
+  destruct (t_once t) eqn:Eon; [inversion H; subst; exact I|].
+  destruct (objs s c) as [o|] eqn:Ec; [|discriminate].
+  pose proof (i_thread s I i t Et) as Hto. unfold thread_ok in Hto. rewrite Eo, Ep in Hto.
+  destruct Hto as (o1 & Ho1 & Ha1 & Hrd & Hout & _). assert (o1 = o) by congruence; subst o1.
+  unfold outcome in Hout. destruct (c_err o) eqn:Eerr; [discriminate|].
+  pose proof (ready_done s c o I Ec Hrd) as Hdd.
+  pose proof (i_obj s I c o Ec) as Hob. unfold obj_ok, obj_ok' in Hob. rewrite Hdd, Eerr in Hob.
+  destruct Hob as (_ & Hcc & Href & Hdisj).
+  assert (Hhi : holds_at s c i = true).
+  { unfold holds_at. rewrite Et. unfold holds. now rewrite Eo, Ep, Eon, Nat.eqb_refl. }
+  assert (Hin : In i (tids s)) by (apply (i_thr_dom s I); congruence).
+  assert (Hpos : (1 <= holders s c)%nat) by (unfold holders; eapply count_pos; eauto).
+  destruct Hdisj as [(Hreg & _ & Hcl)|(_ & H0 & _)]; [|lia].
+  apply registered_iff in Hreg.
+  set (o' := with_ref o (c_ref o - 1)) in *. set (t' := with_once t) in *.
+  set (s1 := set_thread (set_obj s c o') i t') in *.
+  assert (Hti : forall c0, holds c0 t' = false).
+  { intros c0. unfold holds, t'. cbn. rewrite Eo, Ep. cbn. apply andb_false_r. }
+  assert (Hh1 : (holders s1 c + 1 = holders s c)%nat).
+  { pose proof (count_upd (holds_at s c) (holds_at s1 c) (tids s) i (i_nd s I) Hin) as X.
+    rewrite Hhi in X.
+    assert (E : holds_at s1 c i = false) by (unfold holds_at, s1; cbn; rewrite upd_same; apply Hti).
+    rewrite E in X. cbn in X. unfold holders. change (tids s1) with (tids s).
+    assert (P : forall j, j <> i -> holds_at s c j = holds_at s1 c j).
+    { intros j Hj. unfold holds_at, s1. cbn. now rewrite upd_other. }
+    specialize (X P). lia. }
+  assert (Hat : forall c0 j, c0 <> c -> holds_at s1 c0 j = holds_at s c0 j).
+  { intros c0 j Hn. unfold holds_at, s1. cbn. upd_cases j i; [subst j|reflexivity].
+    rewrite Et, Hti. symmetry. eapply holds_other; eauto. }
+  assert (Hho : forall c0, c0 <> c -> holders s1 c0 = holders s c0).
+  { intros c0 Hn. apply holders_ext; auto. }
+  assert (Hthr : forall j tj, thr s1 j = Some tj -> thread_ok s1 tj).
+  { intros j tj. unfold s1. cbn. upd_cases j i.
+    - intros E; inversion E; subst tj; clear E. unfold thread_ok, t'. cbn. rewrite Eo.
+      exists o'. rewrite upd_same. split; [reflexivity|]. split; [exact Ha1|]. rewrite Ep.
+      repeat split; auto. unfold outcome, o'; cbn. now rewrite Eerr. intros _. eauto.
+    - intros Hj. pose proof (i_thread s I j tj Hj) as Hto. unfold thread_ok in *.
+      destruct (t_obj tj) as [c0|]; [|exact Hto]. destruct Hto as (o0 & Ho0 & Ha0 & Hp).
+      cbn. upd_cases c0 c; [subst c0|eauto]. assert (o0 = o) by congruence; subst o0.
+      exists o'. split; [reflexivity|]. split; [exact Ha0|]. exact Hp. }
+  assert (Hthr_dom : forall j, In j (tids s) <-> thr s1 j <> None).
+  { intros j. rewrite (i_thr_dom s I j). unfold s1; cbn. upd_cases j i; [subst|tauto]. split; congruence. }
+  assert (Hobj_dom : forall c0 o0, objs s1 c0 = Some o0 -> In c0 (tids s)).
+  { intros c0 o0. unfold s1; cbn. upd_cases c0 c; [subst; intros _; eapply i_obj_dom; eauto|apply I]. }
+  assert (Hdial : forall c0 a0, In (c0, a0) (dial_log s) ->
+            exists o0, objs s1 c0 = Some o0 /\ c_addr o0 = a0 /\ c_known o0 = true /\ c_ds o0 <> DStart).
+  { intros c0 a0 Hd. destruct (i_dial s I c0 a0 Hd) as (o0 & Ho0 & Ha0 & Hk0 & Hd0).
+    unfold s1; cbn. upd_cases c0 c; [subst c0|eauto]. assert (o0 = o) by congruence; subst o0.
+    exists o'. repeat split; auto. }
+  assert (Hclose : forall h0, In h0 (close_log s) -> exists o0, objs s1 h0 = Some o0 /\ c_cc o0 = Some h0).
+  { intros h0 Hh. destruct (i_close s I h0 Hh) as (o0 & Ho0 & Hc0).
+    unfold s1; cbn. upd_cases h0 c; [subst h0|eauto]. assert (o0 = o) by congruence; subst o0. eauto. }
+  assert (Hother : forall c0 o0, c0 <> c -> objs s c0 = Some o0 ->
+            obj_ok' (registered s c0 o0) (holders s1 c0) (closes s c0) (holds_at s1 c0 c0) c0 o0).
+  { intros c0 o0 Hn E. rewrite Hho, Hat by auto. exact (i_obj s I c0 o0 E). }
+  destruct (Z.leb (c_ref o') 0) eqn:Ele; inversion H; subst s'; clear H.
+  - (* last holder: remove *)
+    apply Z.leb_le in Ele. unfold o' in Ele; cbn in Ele.
+    assert (Hz : holders s1 c = 0%nat) by lia.
+    unfold remove. change (c_addr o') with (c_addr o).
+    change (conns s1 (c_addr o)) with (conns s (c_addr o)). rewrite Hreg.
+    change (objs s1 c) with (upd (objs s) c (Some o') c). rewrite upd_same.
+    change (c_cc o') with (c_cc o). rewrite Hcc. cbn.
+    constructor; cbn.
+    + apply I.
+    + apply I.
+    + exact Hthr_dom.
+    + exact Hobj_dom.
+    + intros a0 c0. upd_cases a0 (c_addr o); [discriminate|]. intros H.
+      destruct (i_conns s I a0 c0 H) as (o0 & Ho0 & Ha0).
+      upd_cases c0 c; [|eauto]. subst c0. assert (o0 = o) by congruence; subst o0. congruence.
+    + intros c0 o0. upd_cases c0 c.
+      * subst c0. intros E; inversion E; subst o0; clear E.
+        unfold obj_ok, obj_ok', o'. cbn [c_ds c_err c_cc c_ref c_ready with_ref]. rewrite Hdd, Eerr.
+        change (holders _ c) with (holders s1 c).
+        repeat split; auto.
+        { lia. }
+        right. repeat split.
+        { unfold registered. cbn. now rewrite Nat.eqb_refl. }
+        { exact Hz. }
+        { unfold closes. cbn. destruct (Nat.eq_dec c c); [|congruence]. unfold closes in Hcl. now rewrite Hcl. }
+      * intros E. pose proof (Hother c0 o0 n E) as Hob. unfold obj_ok.
+        match goal with |- obj_ok' ?r ?hn ?cl ?ch _ _ =>
+          replace r with (registered s c0 o0); [replace cl with (closes s c0); [exact Hob|]|] end.
+        { unfold closes. cbn. destruct (Nat.eq_dec c c0); [congruence|reflexivity]. }
+        { symmetry. apply (registered_other s (conns s) (c_addr o) c None c0 o0); auto. }
+    + exact Hthr.
+    + intros h0 [E|Hh]; [subst h0|exact (Hclose h0 Hh)]. exists o'. rewrite upd_same. auto.
+    + exact Hdial.
+    + apply I.
+  - apply Z.leb_gt in Ele. unfold o' in Ele; cbn in Ele.
+    constructor.
+    + apply I.
+    + apply I.
+    + exact Hthr_dom.
+    + exact Hobj_dom.
+    + intros a0 c0 H. destruct (i_conns s I a0 c0 H) as (o0 & Ho0 & Ha0).
+      unfold s1; cbn. upd_cases c0 c; [subst|eauto]. assert (o0 = o) by congruence; subst o0. eauto.
+    + intros c0 o0. unfold s1 at 1. cbn. upd_cases c0 c.
+      * subst c0. intros E; inversion E; subst o0; clear E.
+        unfold obj_ok, obj_ok', o'. cbn [c_ds c_err c_cc c_ref c_ready with_ref]. rewrite Hdd, Eerr.
+        repeat split; auto.
+        { lia. }
+        left. repeat split.
+        { apply registered_iff. exact Hreg. }
+        { lia. }
+        { exact Hcl. }
+      * intros E. exact (Hother c0 o0 n E).
+    + exact Hthr.
+    + exact Hclose.
+    + exact Hdial.
+    + apply I.
+Qed.
+
+Lemma holders_new s s' i t0 c :
+  ~ In i (tids s) -> tids s' = i :: tids s -> thr s' = upd (thr s) i (Some t0) ->
+  holders s' c = (b2n (holds c t0) + holders s c)%nat.
+Proof.
+  unfold holders. intros Hni -> Hthr. cbn. unfold holds_at at 1. rewrite Hthr, upd_same.
+  assert (E : List.length (filter (holds_at s' c) (tids s)) = List.length (filter (holds_at s c) (tids s))).
+  { apply count_ext. intros j Hj. unfold holds_at. rewrite Hthr, upd_other; auto. intros ->; contradiction. }
+  destruct (holds c t0); cbn; rewrite E; reflexivity.
+Qed.
+
+Lemma inv_req s i a k s' : inv s -> step s (LReq i a k) = Some s' -> inv s'.
+Proof.
+  intros I H. unfold step in H. rewrite (i_np s I) in H.
+  destruct (thr s i) as [t|] eqn:Et; [discriminate|].
+  destruct (objs s i) as [oi|] eqn:Eoi; [discriminate|].
+  assert (Hni : ~ In i (tids s)) by (rewrite (i_thr_dom s I); congruence).
+  assert (Hobj_ne : forall c o, objs s c = Some o -> c <> i) by (intros c o Hc ->; congruence).
+  assert (Hnd : NoDup (i :: tids s)) by (constructor; [exact Hni|apply I]).
+  assert (Hdom : forall s1 t0, tids s1 = i :: tids s -> thr s1 = upd (thr s) i (Some t0) ->
+            forall j, In j (tids s1) <-> thr s1 j <> None).
+  { intros s1 t0 -> -> j. cbn. rewrite (i_thr_dom s I j). upd_cases j i; [subst|].
+    - split; [congruence|auto].
+    - split; [intros [E|E]; [congruence|exact E]|auto]. }
+  assert (Hat : forall s1 t0 c j, thr s1 = upd (thr s) i (Some t0) -> j <> i -> holds_at s1 c j = holds_at s c j).
+  { intros s1 t0 c j E Hn. unfold holds_at. now rewrite E, upd_other. }
+  destruct (cancelled s i) eqn:Eca.
+  - (* refused at the ctx check *)
+    inversion H; subst s'; clear H.
+    set (t0 := {| t_addr := a; t_obj := None; t_pc := PRet (RErr ErrCtx); t_once := false |}) in *.
+    set (s1 := set_thread (set_tids s (i :: tids s)) i t0) in *.
+    assert (Hh : forall c, holders s1 c = holders s c).
+    { intros c. rewrite (holders_new s s1 i t0 c); auto. }
+    constructor.
+    + apply I.
+    + exact Hnd.
+    + eapply Hdom; reflexivity.
+    + intros c o Hc. right. exact (i_obj_dom s I c o Hc).
+    + apply I.
+    + intros c o Hc. change (objs s1 c) with (objs s c) in Hc.
+      pose proof (i_obj s I c o Hc) as Hob. unfold obj_ok in *.
+      change (registered s1 c o) with (registered s c o). change (closes s1 c) with (closes s c).
+      rewrite Hh, (Hat s1 t0 c c); auto. eapply Hobj_ne; eauto.
+    + intros j tj. unfold s1; cbn. upd_cases j i.
+      * intros E; inversion E; subst tj. unfold thread_ok; cbn. auto.
+      * intros Hj. exact (i_thread s I j tj Hj).
+    + apply I.
+    + apply I.
+    + apply I.
+  - destruct (conns s a) as [cid|] eqn:Eca2.
+    + (* join the entry of this address *)
+      destruct (objs s cid) as [o|] eqn:Ec; [|discriminate].
+      inversion H; subst s'; clear H.
+      destruct (i_conns s I a cid Eca2) as (o1 & Ho1 & Ha1). assert (o1 = o) by congruence; subst o1.
+      assert (Hci : cid <> i) by (eapply Hobj_ne; eauto).
+      set (t0 := {| t_addr := a; t_obj := Some cid; t_pc := PJoined; t_once := false |}) in *.
+      set (o' := with_ref o (c_ref o + 1)) in *.
+      set (s1 := set_thread (set_obj (set_tids s (i :: tids s)) cid o') i t0) in *.
+      assert (Hh : forall c, holders s1 c = (b2n (Nat.eqb cid c) + holders s c)%nat).
+      { intros c. rewrite (holders_new s s1 i t0 c); auto. unfold holds, t0; cbn. now rewrite andb_true_r. }
+      constructor.
+      * apply I.
+      * exact Hnd.
+      * eapply Hdom; reflexivity.
+      * intros c o0. unfold s1; cbn. upd_cases c cid; [subst; intros _; right; eapply i_obj_dom; eauto|].
+        intros Hc; right; exact (i_obj_dom s I c o0 Hc).
+      * intros a0 c0 H. destruct (i_conns s I a0 c0 H) as (o0 & Ho0 & Ha0).
+        unfold s1; cbn. upd_cases c0 cid; [subst|eauto]. assert (o0 = o) by congruence; subst o0. eauto.
+      * intros c o0. unfold s1 at 1; cbn. upd_cases c cid.
+        -- subst c. intros E; inversion E; subst o0; clear E.
+           pose proof (i_obj s I cid o Ec) as Hob. unfold obj_ok, obj_ok' in *.
+           change (registered s1 cid o') with (registered s cid o). change (closes s1 cid) with (closes s cid).
+           rewrite Hh, Nat.eqb_refl, (Hat s1 t0 cid cid); auto.
+           assert (Hreg : registered s cid o = true) by (apply registered_iff; congruence).
+           unfold o'; cbn [c_ds c_err c_cc c_ref c_ready with_ref].
+           destruct (c_ds o).
+           ++ destruct Hob as (? & ? & ? & ? & Hr & ?). repeat split; auto. rewrite Hr. cbn [b2n]. lia.
+           ++ destruct Hob as (? & ? & ? & ? & Hr & ?). repeat split; auto. rewrite Hr. cbn [b2n]. lia.
+           ++ destruct Hob as (? & ? & ? & ? & Hr & ?). repeat split; auto. rewrite Hr. cbn [b2n]. lia.
+           ++ destruct Hob as (? & _). congruence.
+           ++ destruct Hob as (Hrd & Hob). split; [exact Hrd|]. destruct (c_err o).
+              ** destruct Hob; congruence.
+              ** destruct Hob as (Hcc & Hr & Hd). repeat split; auto.
+                 { rewrite Hr. cbn [b2n]. lia. }
+                 destruct Hd as [(_ & Hp & Hcl)|(Hf & _)]; [|congruence].
+                 left. repeat split; auto; cbn [b2n]; lia.
+        -- intros E. pose proof (i_obj s I c o0 E) as Hob. unfold obj_ok in *.
+           change (registered s1 c o0) with (registered s c o0). change (closes s1 c) with (closes s c).
+           rewrite Hh, (Hat s1 t0 c c); auto.
+           ++ destruct (Nat.eqb_spec cid c); [congruence|exact Hob].
+           ++ eapply Hobj_ne; eauto.
+      * intros j tj. unfold s1; cbn. upd_cases j i.
+        -- intros E; inversion E; subst tj. unfold thread_ok, t0; cbn. rewrite upd_same.
+           exists o'. auto.
+        -- intros Hj. pose proof (i_thread s I j tj Hj) as Hto. unfold thread_ok in *.
+           destruct (t_obj tj) as [c0|]; [|exact Hto]. destruct Hto as (o0 & Ho0 & Ha0 & Hp). cbn.
+           upd_cases c0 cid; [subst c0|eauto]. assert (o0 = o) by congruence; subst o0.
+           exists o'. auto.
+      * intros h Hh0. destruct (i_close s I h Hh0) as (o0 & Ho0 & Hc0).
+        unfold s1; cbn. upd_cases h cid; [subst h|eauto]. assert (o0 = o) by congruence; subst o0. eauto.
+      * intros c0 a0 Hd. destruct (i_dial s I c0 a0 Hd) as (o0 & Ho0 & Ha0 & Hk0 & Hd0).
+        unfold s1; cbn. upd_cases c0 cid; [subst c0|eauto]. assert (o0 = o) by congruence; subst o0.
+        exists o'. repeat split; auto.
+      * apply I.
+    + (* no entry: create the object, start its dialer *)
+      inversion H; subst s'; clear H.
+      set (t0 := {| t_addr := a; t_obj := Some i; t_pc := PJoined; t_once := false |}) in *.
+      set (o' := with_ref (new_conn a k) 1) in *.
+      set (s1 := set_thread (set_obj (set_conns (set_tids s (i :: tids s)) (upd (conns s) a (Some i))) i o') i t0) in *.
+      assert (Hh : forall c, holders s1 c = (b2n (Nat.eqb i c) + holders s c)%nat).
+      { intros c. rewrite (holders_new s s1 i t0 c); auto. unfold holds, t0; cbn. now rewrite andb_true_r. }
+      assert (Hz : holders s i = 0%nat).
+      { unfold holders. destruct (filter (holds_at s i) (tids s)) as [|j l] eqn:Ef; [reflexivity|exfalso].
+        assert (Hj : In j (filter (holds_at s i) (tids s))) by (rewrite Ef; left; reflexivity).
+        apply filter_In in Hj. destruct Hj as [_ Hj]. unfold holds_at in Hj.
+        destruct (thr s j) as [tj|] eqn:Etj; [|discriminate].
+        pose proof (i_thread s I j tj Etj) as Hto. unfold thread_ok in Hto. unfold holds in Hj.
+        destruct (t_obj tj) as [c0|]; [|discriminate].
+        destruct (Nat.eqb_spec c0 i); [subst c0|discriminate].
+        destruct Hto as (o0 & Ho0 & _). congruence. }
+      constructor.
+      * apply I.
+      * exact Hnd.
+      * eapply Hdom; reflexivity.
+      * intros c o0. unfold s1; cbn. upd_cases c i; [subst; intros _; left; reflexivity|].
+        intros Hc; right; exact (i_obj_dom s I c o0 Hc).
+      * intros a0 c0. unfold s1; cbn. upd_cases a0 a.
+        -- subst a0. intros E; inversion E; subst c0. rewrite Nat.eqb_refl. exists o'. auto.
+        -- intros H. destruct (i_conns s I a0 c0 H) as (o0 & Ho0 & Ha0).
+           upd_cases c0 i; [subst; congruence|eauto].
+      * intros c o0. unfold s1 at 1; cbn. upd_cases c i.
+        -- subst c. intros E; inversion E; subst o0; clear E.
+           unfold obj_ok, obj_ok', o'. cbn [c_ds c_err c_cc c_ref c_ready with_ref new_conn].
+           repeat split; auto.
+           ++ unfold registered, s1; cbn. rewrite upd_same. apply Nat.eqb_refl.
+           ++ rewrite Hh, Nat.eqb_refl, Hz. reflexivity.
+           ++ unfold holds_at, s1; cbn. rewrite upd_same. unfold holds, t0; cbn. now rewrite Nat.eqb_refl.
+        -- intros E. pose proof (i_obj s I c o0 E) as Hob. unfold obj_ok in *.
+           change (closes s1 c) with (closes s c).
+           rewrite Hh, (Hat s1 t0 c c); auto.
+           destruct (Nat.eqb_spec i c); [congruence|]. cbn [b2n plus].
+           replace (registered s1 c o0) with (registered s c o0); [exact Hob|].
+           symmetry. apply (registered_other s (conns s) a i (Some i) c o0); auto.
+      * intros j tj. unfold s1; cbn. upd_cases j i.
+        -- intros E; inversion E; subst tj. unfold thread_ok, t0; cbn. rewrite upd_same.
+           exists o'. auto.
+        -- intros Hj. pose proof (i_thread s I j tj Hj) as Hto. unfold thread_ok in *.
+           destruct (t_obj tj) as [c0|]; [|exact Hto]. destruct Hto as (o0 & Ho0 & Ha0 & Hp). cbn.
+           upd_cases c0 i; [subst; congruence|eauto].
+      * intros h Hh0. destruct (i_close s I h Hh0) as (o0 & Ho0 & Hc0).
+        unfold s1; cbn. upd_cases h i; [subst; congruence|eauto].
+      * intros c0 a0 Hd. destruct (i_dial s I c0 a0 Hd) as (o0 & Ho0 & Ha0 & Hk0 & Hd0).
+        unfold s1; cbn. upd_cases c0 i; [subst; congruence|eauto].
+      * apply I.
+Qed.
+
+Lemma inv_step s l s' : inv s -> step s l = Some s' -> inv s'.
+Proof.
+  intros I H. destruct l.
+  - eapply inv_req; eauto.
+  - eapply inv_spawn; eauto.
+  - eapply inv_dialret; eauto.
+  - eapply inv_dialctx; eauto.
+  - eapply inv_faillock; eauto.
+  - eapply inv_failready; eauto.
+  - eapply inv_pass; eauto.
+  - eapply inv_wait; eauto.
+  - eapply inv_release; eauto.
+  - unfold step in H. rewrite (i_np s I) in H. inversion H; subst. now apply inv_cancel.
+Qed.
+
+Theorem inv_reachable s : reachable s -> inv s.
+Proof.
+  apply invariant_induction; [exact inv_init|]. intros s0 l s' _ I H. eapply inv_step; eauto.
+Qed.
+
+(** * The property, over every schedule *)
+
+(** an attempt to connect to [a] is in progress on object [c]: the dialer has
+    not yet decided, or has failed and not yet cleaned up *)
+Definition pending (s : state) (c a : nat) : Prop :=
+  exists o, objs s c = Some o /\ c_addr o = a /\
+            (c_ds o = DStart \/ c_ds o = DInDial \/ exists e, c_ds o = DFailing e).
+
+Lemma pending_registered s c a : inv s -> pending s c a -> conns s a = Some c.
+Proof.
+  intros I (o & Ho & Ha & Hd). pose proof (i_obj s I c o Ho) as Hob. unfold obj_ok, obj_ok' in Hob.
+  subst a. apply registered_iff.
+  destruct Hd as [Hd|[Hd|[e Hd]]]; rewrite Hd in Hob; tauto.
+Qed.
+
+(** remove_precondition: the process never panics, in particular the `!ok`
+    branch of Manager.remove (nil dereference) is never taken; and both callers
+    of remove delete the entry of their own connection object *)
+Theorem never_panics s : reachable s -> panicked s = false.
+Proof. intros H. apply (i_np s (inv_reachable s H)). Qed.
+
+Theorem remove_finds_own_entry_on_failure s c o e :
+  reachable s -> objs s c = Some o -> c_ds o = DFailing e -> conns s (c_addr o) = Some c.
+Proof.
+  intros H Ho Hd. apply pending_registered; [now apply inv_reachable|].
+  exists o. repeat split; eauto.
+Qed.
+
+Lemma holder_facts s i t c h :
+  inv s -> thr s i = Some t -> t_obj t = Some c -> t_pc t = PRet (RConn h) ->
+  exists o, objs s c = Some o /\ c_addr o = t_addr t /\ c_ds o = DDone /\ c_err o = None /\
+            h = Some c /\ c_cc o = Some c /\ c_ref o = Z.of_nat (holders s c).
+Proof.
+  intros I Ht Ho Hp. pose proof (i_thread s I i t Ht) as Hto. unfold thread_ok in Hto.
+  rewrite Ho, Hp in Hto. destruct Hto as (o & Hc & Ha & Hr & Hout & _).
+  pose proof (ready_done s c o I Hc Hr) as Hd.
+  pose proof (i_obj s I c o Hc) as Hob. unfold obj_ok, obj_ok' in Hob. rewrite Hd in Hob.
+  unfold outcome in Hout. destruct (c_err o) eqn:Ee; [discriminate|].
+  destruct Hob as (_ & Hcc & Hrf & _). inversion Hout; subst h.
+  exists o. repeat split; auto.
+Qed.
+
+Lemma holds_pos s c i : inv s -> holds_at s c i = true -> (1 <= holders s c)%nat.
+Proof.
+  intros I H. unfold holders. eapply count_pos; eauto.
+  apply (i_thr_dom s I). unfold holds_at in H. destruct (thr s i); congruence.
+Qed.
+
+Theorem remove_finds_own_entry_on_release s i t c h o :
+  reachable s -> thr s i = Some t -> t_obj t = Some c -> t_pc t = PRet (RConn h) -> t_once t = false ->
+  objs s c = Some o -> conns s (c_addr o) = Some c.
+Proof.
+  intros H Ht Ho Hp Hon Hc. pose proof (inv_reachable s H) as I.
+  destruct (holder_facts s i t c h I Ht Ho Hp) as (o1 & Hc1 & Ha & Hd & He & Hh & Hcc & Hrf).
+  assert (o1 = o) by congruence; subst o1.
+  assert (Hat : holds_at s c i = true).
+  { unfold holds_at. rewrite Ht. unfold holds. now rewrite Ho, Hp, Hon, Nat.eqb_refl. }
+  pose proof (holds_pos s c i I Hat) as Hpos.
+  pose proof (i_obj s I c o Hc) as Hob. unfold obj_ok, obj_ok' in Hob. rewrite Hd, He in Hob.
+  destruct Hob as (_ & _ & _ & [(Hreg & _)|(_ & Hz & _)]); [now apply registered_iff|lia].
+Qed.
+
+(** one_dial_in_flight: at most one attempt per address, hence at most one
+    Dial call in flight per address; a request that arrives during an attempt
+    joins it and starts nothing *)
+Theorem one_attempt_per_address s c1 c2 a :
+  reachable s -> pending s c1 a -> pending s c2 a -> c1 = c2.
+Proof.
+  intros H H1 H2. pose proof (inv_reachable s H) as I.
+  pose proof (pending_registered s c1 a I H1). pose proof (pending_registered s c2 a I H2). congruence.
+Qed.
+
+Theorem one_dial_in_flight s c1 c2 o1 o2 :
+  reachable s -> objs s c1 = Some o1 -> objs s c2 = Some o2 ->
+  c_ds o1 = DInDial -> c_ds o2 = DInDial -> c_addr o1 = c_addr o2 -> c1 = c2.
+Proof.
+  intros H H1 H2 D1 D2 Ha. apply (one_attempt_per_address s c1 c2 (c_addr o1) H).
+  - exists o1; auto.
+  - exists o2; repeat split; auto.
+Qed.
+
+Theorem request_joins_pending_attempt s c a i k s' :
+  reachable s -> pending s c a -> cancelled s i = false -> step s (LReq i a k) = Some s' ->
+  dial_log s' = dial_log s /\
+  (forall c', objs s c' = None -> objs s' c' = None) /\
+  exists t, thr s' i = Some t /\ t_obj t = Some c /\ t_pc t = PJoined.
+Proof.
+  intros H Hp Hc Hs. pose proof (inv_reachable s H) as I.
+  pose proof (pending_registered s c a I Hp) as Hreg.
+  unfold step in Hs. rewrite (i_np s I) in Hs.
+  destruct (thr s i); [discriminate|]. destruct (objs s i) eqn:Ei; [discriminate|].
+  rewrite Hc, Hreg in Hs. destruct Hp as (o & Ho & _). rewrite Ho in Hs.
+  inversion Hs; subst s'; clear Hs. cbn. repeat split.
+  - intros c' Hn. upd_cases c' c; [congruence|exact Hn].
+  - rewrite upd_same. eexists. split; [reflexivity|]. cbn. auto.
+Qed.
+
+(** share_outcome: everybody who joined one attempt returns the same result *)
+Theorem share_outcome s i j ti tj c r r' :
+  reachable s -> thr s i = Some ti -> thr s j = Some tj ->
+  t_obj ti = Some c -> t_obj tj = Some c -> t_pc ti = PRet r -> t_pc tj = PRet r' -> r = r'.
+Proof.
+  intros H Hi Hj Hoi Hoj Hpi Hpj. pose proof (inv_reachable s H) as I.
+  pose proof (i_thread s I i ti Hi) as H1. pose proof (i_thread s I j tj Hj) as H2.
+  unfold thread_ok in *. rewrite Hoi, Hpi in H1. rewrite Hoj, Hpj in H2.
+  destruct H1 as (o1 & Ho1 & _ & _ & E1 & _). destruct H2 as (o2 & Ho2 & _ & _ & E2 & _).
+  congruence.
+Qed.
+
+(** a successful request returns the handle produced by the Dial of the
+    attempt it joined (never nil), for the address it asked for *)
+Theorem returned_handle_is_the_attempts s i t c h :
+  reachable s -> thr s i = Some t -> t_obj t = Some c -> t_pc t = PRet (RConn h) ->
+  h = Some c /\ exists o, objs s c = Some o /\ c_addr o = t_addr t /\ c_cc o = Some c.
+Proof.
+  intros H Ht Ho Hp. pose proof (inv_reachable s H) as I.
+  destruct (holder_facts s i t c h I Ht Ho Hp) as (o & Hc & Ha & _ & _ & Hh & Hcc & _). eauto.
+Qed.
+
+(** no_use_after_close: a handle is not closed while some thread counts as a
+    holder -- whether it already returned it and has not released, or is still
+    on its way (joined, waiting) *)
+Theorem no_use_after_close s i c :
+  reachable s -> holds_at s c i = true -> ~ In c (close_log s).
+Proof.
+  intros H Hat Hin. pose proof (inv_reachable s H) as I.
+  pose proof (holds_pos s c i I Hat) as Hpos.
+  destruct (i_close s I c Hin) as (o & Ho & Hcc).
+  pose proof (i_obj s I c o Ho) as Hob. unfold obj_ok, obj_ok' in Hob.
+  destruct (c_ds o); try (destruct Hob as (_ & _ & _ & Hn & _); congruence).
+  - destruct Hob as (_ & _ & _ & Hn); congruence.
+  - destruct Hob as (_ & Hob). destruct (c_err o); [destruct Hob; congruence|].
+    destruct Hob as (_ & _ & [(_ & _ & Hz)|(_ & Hz & _)]); [|lia].
+    unfold closes in Hz. apply (count_occ_not_In Nat.eq_dec) in Hz. contradiction.
+Qed.
+
+Theorem no_use_after_close_returned s i t h :
+  reachable s -> thr s i = Some t -> t_pc t = PRet (RConn (Some h)) -> t_once t = false ->
+  ~ In h (close_log s).
+Proof.
+  intros H Ht Hp Hon. pose proof (inv_reachable s H) as I.
+  pose proof (i_thread s I i t Ht) as Hto. unfold thread_ok in Hto.
+  destruct (t_obj t) as [c|] eqn:Ho; [|rewrite Hp in Hto; destruct Hto; discriminate].
+  destruct (holder_facts s i t c (Some h) I Ht Ho Hp) as (o & _ & _ & _ & _ & Hh & _).
+  inversion Hh; subst h. apply (no_use_after_close s i c H).
+  unfold holds_at. rewrite Ht. unfold holds. now rewrite Ho, Hp, Hon, Nat.eqb_refl.
+Qed.
+
+(** closed_exactly_once *)
+Theorem closed_at_most_once s h : reachable s -> (count_occ Nat.eq_dec (close_log s) h <= 1)%nat.
+Proof.
+  intros H. pose proof (inv_reachable s H) as I.
+  destruct (in_dec Nat.eq_dec h (close_log s)) as [Hin|Hni].
+  - destruct (i_close s I h Hin) as (o & Ho & Hcc).
+    pose proof (i_obj s I h o Ho) as Hob. unfold obj_ok, obj_ok' in Hob.
+    destruct (c_ds o); try (destruct Hob as (_ & _ & _ & Hn & _); congruence).
+    + destruct Hob as (_ & _ & _ & Hn); congruence.
+    + destruct Hob as (_ & Hob). destruct (c_err o); [destruct Hob; congruence|].
+      destruct Hob as (_ & _ & [(_ & _ & Hz)|(_ & _ & Hz)]); unfold closes in Hz; lia.
+  - apply (count_occ_not_In Nat.eq_dec) in Hni. lia.
+Qed.
+
+(** a connection that was established is closed and forgotten exactly when
+    nobody holds it any more (no leak, no early close) *)
+Theorem closed_iff_no_holder s c o :
+  reachable s -> objs s c = Some o -> c_cc o = Some c ->
+  (holders s c = 0%nat <-> count_occ Nat.eq_dec (close_log s) c = 1%nat) /\
+  (holders s c = 0%nat <-> conns s (c_addr o) <> Some c).
+Proof.
+  intros H Ho Hcc. pose proof (inv_reachable s H) as I.
+  pose proof (i_obj s I c o Ho) as Hob. unfold obj_ok, obj_ok' in Hob.
+  destruct (c_ds o); try (destruct Hob as (_ & _ & _ & Hn & _); congruence).
+  - destruct Hob as (_ & _ & _ & Hn); congruence.
+  - destruct Hob as (_ & Hob). destruct (c_err o); [destruct Hob; congruence|].
+    destruct Hob as (_ & _ & [(Hr & Hp & Hz)|(Hr & Hp & Hz)]); unfold closes in Hz.
+    + apply registered_iff in Hr. split; split; intros; try lia; congruence.
+    + apply registered_false in Hr. split; split; intros; auto.
+Qed.
+
+(** the release by the last holder closes the handle and deletes the entry *)
+Theorem last_release_closes s i t c h s' :
+  reachable s -> thr s i = Some t -> t_obj t = Some c -> t_pc t = PRet (RConn h) -> t_once t = false ->
+  holders s c = 1%nat -> step s (LRelease i) = Some s' ->
+  In c (close_log s') /\ conns s' (t_addr t) = None /\ panicked s' = false.
+Proof.
+  intros H Ht Ho Hp Hon Hone Hs. pose proof (inv_reachable s H) as I.
+  destruct (holder_facts s i t c h I Ht Ho Hp) as (o & Hc & Ha & Hd & He & Hh & Hcc & Hrf).
+  pose proof (remove_finds_own_entry_on_release s i t c h o H Ht Ho Hp Hon Hc) as Hreg.
+  unfold step in Hs. rewrite (i_np s I), Ht, Hp, Ho, Hon, Hc in Hs. cbn in Hs.
+  rewrite Hrf, Hone in Hs. cbn in Hs. inversion Hs; subst s'; clear Hs.
+  unfold remove. cbn. rewrite Hreg, upd_same. cbn. rewrite Hcc. cbn.
+  rewrite <- Ha, upd_same. repeat split; auto. apply I.
+Qed.
+
+(** forgotten_then_fresh: a closed handle is no longer the entry of its
+    address, and a request that finds no entry creates a new attempt whose
+    dialer invokes Dial *)
+Theorem closed_is_forgotten s h o :
+  reachable s -> In h (close_log s) -> objs s h = Some o -> conns s (c_addr o) <> Some h.
+Proof.
+  intros H Hin Ho. pose proof (inv_reachable s H) as I.
+  destruct (i_close s I h Hin) as (o1 & Ho1 & Hcc). assert (o1 = o) by congruence; subst o1.
+  destruct (closed_iff_no_holder s h o H Ho Hcc) as [H1 H2]. apply H2.
+  destruct (Nat.eq_dec (holders s h) 0) as [E|E]; [exact E|exfalso].
+  assert (Hex : exists i, holds_at s h i = true).
+  { unfold holders in E. destruct (filter (holds_at s h) (tids s)) as [|j l] eqn:Ef; [contradiction|].
+    exists j. assert (Hj : In j (filter (holds_at s h) (tids s))) by (rewrite Ef; left; reflexivity).
+    apply filter_In in Hj. tauto. }
+  destruct Hex as [i Hi]. exact (no_use_after_close s i h H Hi Hin).
+Qed.
+
+Theorem fresh_dial_when_no_entry s i a s' :
+  reachable s -> conns s a = None -> cancelled s i = false -> step s (LReq i a true) = Some s' ->
+  conns s' a = Some i /\
+  exists s'', step s' (LSpawn i) = Some s'' /\ dial_log s'' = (i, a) :: dial_log s.
+Proof.
+  intros H Hn Hc Hs. pose proof (inv_reachable s H) as I.
+  unfold step in Hs. rewrite (i_np s I) in Hs.
+  destruct (thr s i); [discriminate|]. destruct (objs s i); [discriminate|].
+  rewrite Hc, Hn in Hs. inversion Hs; subst s'; clear Hs. cbn. rewrite upd_same. split; [reflexivity|].
+  unfold step. cbn. rewrite (i_np s I), upd_same. cbn. eexists. split; reflexivity.
+Qed.
+
+(** double_release_noop, release_after_failure_noop *)
+Theorem double_release_noop s i t :
+  reachable s -> thr s i = Some t -> t_once t = true -> step s (LRelease i) = Some s.
+Proof.
+  intros H Ht Hon. pose proof (inv_reachable s H) as I.
+  pose proof (i_thread s I i t Ht) as Hto. unfold thread_ok in Hto.
+  unfold step. rewrite (i_np s I), Ht.
+  destruct (t_obj t) as [c|].
+  - destruct Hto as (o & _ & _ & Hp). destruct (t_pc t) as [| |r]; try congruence.
+    destruct Hp as (_ & _ & Hx). destruct (Hx Hon) as [h ->]. now rewrite Hon.
+  - destruct Hto as [-> _]. reflexivity.
+Qed.
+
+Theorem release_after_failure_noop s i t e :
+  reachable s -> thr s i = Some t -> t_pc t = PRet (RErr e) -> step s (LRelease i) = Some s.
+Proof.
+  intros H Ht Hp. unfold step. now rewrite (never_panics s H), Ht, Hp.
+Qed.
+
+(** a request that failed never counts as a holder *)
+Theorem failed_request_holds_nothing s i t e c :
+  thr s i = Some t -> t_pc t = PRet (RErr e) -> holds_at s c i = false.
+Proof.
+  intros Ht Hp. unfold holds_at. rewrite Ht. unfold holds. rewrite Hp.
+  destruct (t_obj t); [apply andb_false_r|reflexivity].
+Qed.
+
+(** no waiter is stuck: a thread waiting on an attempt that is not finished
+    can always be helped by a step of that attempt's dialer, and once the
+    attempt is finished the thread itself can return *)
+Theorem waiter_progress s i t c :
+  reachable s -> thr s i = Some t -> t_pc t = PWaiting -> t_obj t = Some c ->
+  exists l s', step s l = Some s' /\
+    (l = LWait i \/ l = LSpawn c \/ l = LDialRet c true \/ l = LFailLock c \/ l = LFailReady c).
+Proof.
+  intros H Ht Hp Ho. pose proof (inv_reachable s H) as I.
+  pose proof (i_thread s I i t Ht) as Hto. unfold thread_ok in Hto. rewrite Ho, Hp in Hto.
+  destruct Hto as (o & Hc & Ha & _).
+  pose proof (i_obj s I c o Hc) as Hob. unfold obj_ok, obj_ok' in Hob.
+  destruct (c_ds o) eqn:Hd.
+  - exists (LSpawn c). unfold step. rewrite (i_np s I), Hc, Hd. destruct (c_known o); eauto 8.
+  - exists (LDialRet c true). unfold step. rewrite (i_np s I), Hc, Hd. eauto 8.
+  - exists (LFailLock c). unfold step. rewrite (i_np s I), Hc, Hd.
+    destruct (panicked (remove s (c_addr o))); eauto 8.
+  - exists (LFailReady c). unfold step. rewrite (i_np s I), Hc, Hd. eauto 8.
+  - exists (LWait i). destruct Hob as (Hr & _). unfold step. rewrite (i_np s I), Ht, Hp, Ho, Hc, Hr.
+    destruct (c_err o); eauto 8.
+Qed.
+
+(** * The model run by the correspondence check is this LTS
+
+    Every state the evaluator of ConnCheck.v visits while replaying a script
+    is reachable, so every theorem above holds of it. *)
+From Gnmi Require Import Conn.ConnCheck.
+
+Lemma try_step_reachable s l : reachable s -> reachable (try_step s l).
+Proof.
+  intros H. unfold try_step. destruct (step s l) eqn:E; [eapply reachable_step; eauto|exact H].
+Qed.
+
+Lemma fold_try_reachable (f : nat -> label) ids s :
+  reachable s -> reachable (fold_left (fun s c => try_step s (f c)) ids s).
+Proof.
+  revert s; induction ids as [|c ids IH]; intros s H; cbn; [exact H|].
+  apply IH. now apply try_step_reachable.
+Qed.
+
+Lemma fold_try_list_reachable ls s : reachable s -> reachable (fold_left try_step ls s).
+Proof.
+  revert s; induction ls as [|l ls IH]; intros s H; cbn; [exact H|].
+  apply IH. now apply try_step_reachable.
+Qed.
+
+Lemma settle_reachable s : reachable s -> reachable (settle s).
+Proof.
+  intros H. unfold settle.
+  apply (fold_try_reachable (fun i => LWait i)).
+  apply (fold_try_reachable (fun c => LFailReady c)).
+  now apply (fold_try_reachable (fun c => LSpawn c)).
+Qed.
+
+Theorem mrun_reachable s e : reachable s -> reachable (fst (mrun s e)).
+Proof.
+  intros H. unfold mrun. destruct (labels_of s e) as [l more].
+  destruct (step s l) as [s1|] eqn:E; cbn; [|exact H].
+  apply settle_reachable, fold_try_list_reachable. eapply reachable_step; eauto.
+Qed.
+
+Fixpoint mstates (s : state) (es : list event) : list state :=
+  match es with
+  | [] => [s]
+  | e :: es' => s :: mstates (fst (mrun s e)) es'
+  end.
+
+Theorem check_model_states_reachable es : Forall reachable (mstates init es).
+Proof.
+  assert (G : forall s, reachable s -> Forall reachable (mstates s es)).
+  { induction es as [|e es IH]; intros s H; cbn; constructor; auto.
+    apply IH. now apply mrun_reachable. }
+  apply G, reachable_init.
+Qed.
+
+(** * Non-vacuity: the hypotheses of the theorems are met by reachable states *)
+
+Definition st_of (ls : list label) : state :=
+  match run init ls with Some s => s | None => init end.
+
+Lemma st_of_reachable ls : run init ls <> None -> reachable (st_of ls).
+Proof.
+  unfold st_of. intros H. destruct (run init ls) eqn:E; [|congruence]. now exists ls.
+Qed.
+
+(** threads 0 and 1 share one successful dial to address 0; thread 0 has
+    released twice; thread 1 still holds the handle *)
+Definition sched_shared : list label :=
+  [LReq 0 0 true; LSpawn 0; LReq 1 0 true; LPass 0; LPass 1; LDialRet 0 true; LWait 0; LWait 1;
+   LRelease 0; LRelease 0]%nat.
+
+(** ... then thread 1 releases too, and thread 2 asks for the same address *)
+Definition sched_closed : list label := sched_shared ++ [LRelease 1]%nat.
+Definition sched_fresh : list label := sched_closed ++ [LReq 2 0 true; LSpawn 2]%nat.
+
+(** threads 0,1,2 share one failing dial; 2 arrives between the Dial's return
+    and the clean-up; meanwhile a dial to address 1 is in flight *)
+Definition sched_failed : list label :=
+  [LReq 0 0 true; LSpawn 0; LReq 1 0 true; LReq 3 1 true; LSpawn 3; LDialRet 0 false; LReq 2 0 true;
+   LFailLock 0; LFailReady 0; LPass 0; LPass 1; LPass 2; LWait 0; LWait 1; LWait 2]%nat.
+
+Definition sched_two_dials : list label :=
+  [LReq 0 0 true; LSpawn 0; LReq 3 1 true; LSpawn 3; LReq 1 0 true; LPass 1]%nat.
+
+Ltac ex_reach := apply st_of_reachable; vm_compute; discriminate.
+
+Example ex_shared :
+  let s := st_of sched_shared in
+  reachable s /\
+  (exists t0 t1, thr s 0%nat = Some t0 /\ thr s 1%nat = Some t1 /\
+     t_obj t0 = Some 0%nat /\ t_obj t1 = Some 0%nat /\
+     t_pc t0 = PRet (RConn (Some 0%nat)) /\ t_pc t1 = PRet (RConn (Some 0%nat)) /\
+     t_once t0 = true /\ t_once t1 = false) /\
+  holds_at s 0 1 = true /\ holders s 0 = 1%nat /\ close_log s = [] /\
+  step s (LRelease 1) <> None.
+Proof.
+  cbv zeta. split; [ex_reach|]. split.
+  - do 2 eexists. repeat split; vm_compute; reflexivity.
+  - split; [vm_compute; reflexivity|]. split; [vm_compute; reflexivity|].
+    split; [vm_compute; reflexivity|]. vm_compute; discriminate.
+Qed.
+
+Example ex_closed :
+  let s := st_of sched_closed in
+  reachable s /\ close_log s = [0%nat] /\ conns s 0%nat = None /\ holders s 0 = 0%nat /\
+  cancelled s 2%nat = false /\ step s (LReq 2 0 true) <> None.
+Proof.
+  cbv zeta. split; [ex_reach|]. do 4 (split; [vm_compute; reflexivity|]). vm_compute; discriminate.
+Qed.
+
+Example ex_fresh :
+  let s := st_of sched_fresh in
+  reachable s /\ dial_log s = [(2, 0); (0, 0)]%nat /\ close_log s = [0%nat] /\ conns s 0%nat = Some 2%nat.
+Proof. cbv zeta. split; [ex_reach|]. repeat split; vm_compute; reflexivity. Qed.
+
+Example ex_failed :
+  let s := st_of sched_failed in
+  reachable s /\
+  (forall i, In i [0; 1; 2]%nat -> exists t, thr s i = Some t /\ t_obj t = Some 0%nat /\ t_pc t = PRet (RErr ErrDial)) /\
+  conns s 0%nat = None /\ dial_log s = [(3, 1); (0, 0)]%nat /\ step s (LRelease 2) = Some s.
+Proof.
+  cbv zeta. split; [ex_reach|]. split; [|split; [|split]].
+  - intros i [<-|[<-|[<-|[]]]]; eexists; repeat split; vm_compute; reflexivity.
+  - vm_compute; reflexivity.
+  - vm_compute; reflexivity.
+  - eapply release_after_failure_noop; [ex_reach|vm_compute; reflexivity|vm_compute; reflexivity].
+Qed.
+
+Example ex_two_dials :
+  let s := st_of sched_two_dials in
+  reachable s /\ pending s 0 0 /\ pending s 3 1 /\
+  (exists o0 o3, objs s 0%nat = Some o0 /\ objs s 3%nat = Some o3 /\ c_ds o0 = DInDial /\ c_ds o3 = DInDial) /\
+  (exists t, thr s 1%nat = Some t /\ t_pc t = PWaiting /\ t_obj t = Some 0%nat) /\
+  cancelled s 2%nat = false /\ step s (LReq 2 0 true) <> None.
+Proof.
+  cbv zeta. split; [ex_reach|]. split; [|split; [|split; [|split; [|split]]]].
+  - eexists. split; [vm_compute; reflexivity|]. split; [reflexivity|]. right; left; reflexivity.
+  - eexists. split; [vm_compute; reflexivity|]. split; [reflexivity|]. right; left; reflexivity.
+  - do 2 eexists. repeat split; vm_compute; reflexivity.
+  - eexists. repeat split; vm_compute; reflexivity.
+  - vm_compute; reflexivity.
+  - vm_compute; discriminate.
+Qed.
+
+Example ex_failing_window :
+  let s := st_of (firstn 7 sched_failed) in
+  reachable s /\ (exists o, objs s 0%nat = Some o /\ c_ds o = DFailing ErrDial) /\ conns s 0%nat = Some 0%nat.
+Proof.
+  cbv zeta. split; [ex_reach|]. split; [eexists; split; vm_compute; reflexivity|vm_compute; reflexivity].
 Qed.
